@@ -807,7 +807,8 @@ func (s *AbsfsNFS) ReadDirWithContext(ctx context.Context, dir *NFSNode) ([]*NFS
 				}
 				node, err := s.Lookup(entryPath)
 				if err != nil {
-					continue
+					// Listed, but gone by now: keep it, the reply is the directory as it was read
+					node = s.nodeFromDirEntry(entryPath, entry)
 				}
 				nodes = append(nodes, node)
 			}
@@ -864,12 +865,39 @@ func (s *AbsfsNFS) ReadDirWithContext(ctx context.Context, dir *NFSNode) ([]*NFS
 		}
 		node, err := s.Lookup(entryPath)
 		if err != nil {
-			continue
+			// Listed, but gone by now: keep it, the reply is the directory as it was read
+			node = s.nodeFromDirEntry(entryPath, entry)
 		}
 		nodes = append(nodes, node)
 	}
 
 	return nodes, nil
+}
+
+// nodeFromDirEntry builds the node of a directory entry from the os.FileInfo the
+// directory read returned for it. ReadDir uses it for an entry that a concurrent
+// REMOVE/RENAME took away between reading the directory and looking the entry up:
+// dropping such entries could produce a listing the directory never had.
+func (s *AbsfsNFS) nodeFromDirEntry(entryPath string, info os.FileInfo) *NFSNode {
+	h := fnv.New64a()
+	h.Write([]byte(entryPath))
+	attrs := &NFSAttrs{
+		Mode:   info.Mode(),
+		Size:   info.Size(),
+		FileId: h.Sum64(),
+	}
+	attrs.SetMtime(info.ModTime())
+	attrs.SetAtime(info.ModTime())
+	attrs.Refresh()
+	node := &NFSNode{
+		SymlinkFileSystem: s.fs,
+		path:              entryPath,
+		attrs:             attrs,
+	}
+	if info.IsDir() {
+		node.children = make(map[string]*NFSNode)
+	}
+	return node
 }
 
 // ReadDirPlus implements the READDIRPLUS operation
